@@ -5,6 +5,8 @@ EXTENDS BpSnapshots
 Gen3 == <<1, 2, 3>>
 \* rankings: the genesis order, a permutation with a newcomer, a short one (fewer candidates than BPCOUNT)
 Rank2 == << <<1, 2, 3, 4>>, <<4, 2, 1, 3>> >>
+\* two rankings, the second one shorter than BPCOUNT (and with a newcomer)
+Rank2s == << <<1, 2, 3, 4>>, <<5, 1>> >>
 Rank3 == << <<1, 2, 3, 4>>, <<4, 2, 1, 3>>, <<5, 1>> >>
 Rank4 == << <<1, 2, 3, 4>>, <<4, 2, 1, 3>>, <<5, 1>>, <<2, 3, 4, 5, 1>> >>
 C3  == {3}
